@@ -1,5 +1,6 @@
 import Qats.Lemmas.PipelineMain
 import Qats.Lemmas.SmoothMain
+import Qats.Lemmas.PipelineGen
 /-!
 # C11 — the processing pipeline means what its options say
 
@@ -173,5 +174,12 @@ example : (Qats.Smooth.smooth [1, 1, 1, 1] ([0, 1, 4, 9, 16] : List Rat)).toOpti
 example : get (fun _ => 0) ⟨fun x => x.map (· + 1), fun dt x => x.map fun v => 2 * v + dt, id⟩
     ([0, 1, 2, 3, 4] : List Rat) [0, 1, 4, 9, 16] { twin := some (1, 3), taper := true, filter := true }
     = .ok ([1, 2, 3], [5, 11, 21]) := by decide +kernel
+
+/-- The resampling grid is built from the ratio **as written in the source**: `Qats.Gen.grid_ratio` is the argument of `round` in
+the helper `new_timearray` of `TimeSeries.get`, regenerated from `qats/ts.py` by the translator on every run (`int()` instead of
+`round`, a swapped difference or a product instead of the quotient fail this proof or the correspondence of `rnd`). -/
+theorem newTimearray_ratio_is_source (rnd : ℝ → Int) (t0 t1 d : ℝ) :
+    newTimearray rnd t0 t1 d = linspace t0 t1 ((rnd (Qats.Gen.grid_ratio d t0 t1)).toNat + 1) :=
+  newTimearray_ratio_is_source' rnd t0 t1 d
 
 end Qats.Props.C11
